@@ -385,6 +385,7 @@ def shards(tier, seed):
     out += [("body", which, k, 4) for which in ("json", "form", "multipart") for k in range(4)]
     out.append(("special",))
     out += [("filehdr", name) for name in ("Range", "If-Range", "If-None-Match", "If-Modified-Since")]
+    out += [("hostdispatch", k, 4) for k in range(4)]
     return out
 
 
@@ -484,6 +485,26 @@ def run_shard(desc, tier):
             if len(body) > 3:
                 probe_body(r, ctype, body, accessor, chunks=[body[:1], body[1:len(body) // 2], b"", body[len(body) // 2:]])
         r.sample({"special": "5000-digit number, deep nesting, invalid UTF-8, 16 charsets, 11 boundary variants, headers without colon"})
+    elif kind == "hostdispatch":
+        # hostile Host values through the applications (redirects, host dispatch, mounted static files), not only the accessors
+        _, k, n = desc
+        t = Tree()
+        try:
+            apps = build_apps(t.dir)
+            seen = set()
+            vals = []
+            for base in BASES["Host"]:
+                for v in itertools.chain([base], edits(base, tier), noise(2, HOSTILE)):
+                    if v not in seen:
+                        seen.add(v)
+                        vals.append(v)
+            for v in vals[k::n]:
+                for path in ("/sub", "/sub/", "/file.txt", "/files/sub", "/a/x", ""):
+                    areq = SV.AReq(path=path, headers=[("Host", v)])
+                    probe_dispatch(r, apps, areq, {"kind": "hostdispatch", "host": v, "path": path}, f"Host {v!r:.50} path {path!r}")
+            r.sample({"host_values": len(vals), "paths": ["/sub", "/sub/", "/file.txt", "/files/sub", "/a/x", ""]})
+        finally:
+            t.close()
     elif kind == "filehdr":
         name = desc[1]
         t = Tree()
@@ -534,6 +555,12 @@ def replay(w):
         for iface, req in make_requests(SV.AReq(path="/p", query=w["query"])).items():
             for entry, exc in header_accessors(req):
                 report(r, entry, iface, exc, w, "query")
+    elif k == "hostdispatch":
+        t = Tree()
+        try:
+            probe_dispatch(r, build_apps(t.dir), SV.AReq(path=w["path"], headers=[("Host", w["host"])]), w, "host")
+        finally:
+            t.close()
     elif k in ("path", "rawpath"):
         t = Tree()
         try:
